@@ -93,6 +93,10 @@ Definition v_tensordot_check (ea eb : list Z) : res pyv :=
   equal <- (if truthy c then Ok false else td_extents_equal ea eb) ;;
   sv_td_unequal_raise (VBool equal).
 
+(* dot(a, b) with a.ndim == b.ndim == 1: `if a.shape != b.shape: raise ValueError` *)
+Definition v_dot_1d_check (la lb : Z) : res pyv :=
+  sv_dot_1d_shape_check (VTuple [VInt la]) (VTuple [VInt lb]).
+
 Definition tuple_items (v : pyv) : res (list pyv) :=
   match v with VTuple l => Ok l | _ => Raise TypeError end.
 
